@@ -170,3 +170,28 @@ def readFull : List Rd → Nat → Bytes → Option Bytes
     else readFull rs (need - r.data.length) (acc ++ r.data)
 
 end Model.C02.Wrap
+
+/-! ## The waiter table of a pipelined / UDP connection (`TraditionalDnsConn.queue`) over the life of the connection
+
+Every query takes the next value of the connection's id counter (`nextQid`, a `uintN`: it wraps at `2^bits`); the low 16
+bits go on the wire and come back in the reply. `addQueueC` registers the waiter under some key, the reader
+(`popQueueC`) and the caller's cleanup (`deleteQueueC`) look under `uint32` of the 16-bit wire id. -/
+namespace Model.C02.Ids
+
+/-- the id that goes on the wire for the `ctr`-th value of the counter -/
+def wire (ctr : Nat) : Nat := ctr % 65536
+
+/-- the value the counter field holds after `ctr` increments -/
+def held (bits ctr : Nat) : Nat := ctr % 2 ^ bits
+
+/-- The key `addQueueC` registers the waiter under. `keyIsWire = true` (regenerated fact `c02TdcWaiterKeyIsWireId`):
+`uint32` of the id it returns for the wire; `false`: the counter field's own value. -/
+def regKey (keyIsWire : Bool) (bits ctr : Nat) : Nat := if keyIsWire then wire (held bits ctr) else held bits ctr
+
+/-- the key the reader looks up for a reply carrying wire id `w` -/
+def lookupKey (w : Nat) : Nat := w
+
+/-- the reply to the `ctr`-th query of the connection finds the waiter registered for it -/
+def finds (keyIsWire : Bool) (bits ctr : Nat) : Bool := regKey keyIsWire bits ctr == lookupKey (wire (held bits ctr))
+
+end Model.C02.Ids
